@@ -190,6 +190,9 @@ impl<const N: u32> PxE2<{ N }> {
                         k_z += 1;
                         exp_z &= 0x3;
                     }
+                    if (frac64_z & 0x1) != 0 {
+                        bits_more = true;
+                    }
                     frac64_z = (frac64_z >> 1) & 0x7FFF_FFFF_FFFF_FFFF;
                 } else {
                     //for subtract cases
